@@ -75,6 +75,7 @@ type snap struct {
 	ptr        uintptr // identity of the RequestCtx (reuse statistics only)
 	// result of a Read issued after the body stream had returned EOF, if it was not (0, io.EOF) again
 	readAfterEOF string
+	bodyUnread   bool // the handler program deliberately left the streamed body unread
 }
 
 // comparable renders the snapshot for the fresh-server differential. ConnRequestNum is
@@ -106,6 +107,9 @@ func diffComparable(a, b map[string]string) []string {
 	sort.Strings(d)
 	return d
 }
+
+// hijackMarker is what the hijack handler writes: it must come after the hijacking request's response.
+const hijackMarker = "#HIJACKED#"
 
 type connRun struct {
 	spec      *connSpec
@@ -204,7 +208,15 @@ func (w *world) handle(ctx *fasthttp.RequestCtx) {
 	} else {
 		sn.MErr = "unexpected multipart form"
 	}
-	if bs := ctx.Request.BodyStream(); bs != nil && !isForm && p.ReadMode > 0 {
+	if bs := ctx.Request.BodyStream(); bs != nil && !isForm && p.ReadMode >= 3 {
+		// the handler leaves the streamed body (partly) unread: the server must then end the connection,
+		// and nothing of it may survive in the pooled RequestCtx
+		sn.bodyUnread = true
+		if p.ReadMode == 4 {
+			var ten [10]byte
+			bs.Read(ten[:]) //nolint:errcheck // (how much one Read returns depends on the fragmentation: not recorded)
+		}
+	} else if bs != nil && !isForm && p.ReadMode > 0 {
 		if p.ReadMode == 1 {
 			b, err := io.ReadAll(bs)
 			sn.Body = string(b)
@@ -352,11 +364,27 @@ func (w *world) handle(ctx *fasthttp.RequestCtx) {
 	if bit(22) {
 		ctx.Response.Header.SetContentEncoding("identity")
 	}
+	// per-request options that must die with the request
+	if bit(24) && p.Special != "hijack" {
+		ctx.HijackSetNoResponse(true) // an upgrade endpoint that then decides not to hijack
+	}
+	if bit(25) {
+		ctx.Request.Header.DisableNormalizing()
+	}
+	if bit(26) {
+		ctx.Response.Header.DisableNormalizing()
+	}
+	if bit(27) && p.RespMode == 2 {
+		ctx.ResetBody()
+	}
 	switch p.Special {
 	case "hijack":
 		ch := cr.hijackRun
 		cr.hijackSet = true
-		ctx.Hijack(func(c net.Conn) { close(ch) })
+		ctx.Hijack(func(c net.Conn) {
+			c.Write([]byte(hijackMarker)) //nolint:errcheck
+			close(ch)
+		})
 	case "close":
 		ctx.SetConnectionClose()
 	case "timeout":
@@ -535,10 +563,11 @@ func checkAgainstReference(sn *snap, m *msgSpec) []string {
 	}
 	// header fields as a multiset (fasthttp lists special fields first by design); framing fields are
 	// re-represented by fasthttp and are compared through the body instead.
+	// (names: the handler must see the canonical spelling, whatever an earlier request did to the header object)
 	left := map[[2]string]int{}
 	for _, h := range sn.Headers {
 		if !framingFields[canon(h[0])] {
-			left[[2]string{canon(h[0]), h[1]}]++
+			left[[2]string{h[0], h[1]}]++
 		}
 	}
 	for _, f := range ref.Fields {
@@ -576,7 +605,7 @@ func checkAgainstReference(sn *snap, m *msgSpec) []string {
 	if !eqPairs(sn.Cookies, wantCk) {
 		diff("cookies", fmt.Sprint(sn.Cookies), fmt.Sprint(wantCk))
 	}
-	if m.Kind != "multipart" && sn.Body != string(ref.Body) {
+	if m.Kind != "multipart" && !sn.bodyUnread && sn.Body != string(ref.Body) {
 		diff("body", short(sn.Body), short(string(ref.Body)))
 	}
 	wantPost := [][2]string{}
@@ -620,8 +649,8 @@ func checkAgainstReference(sn *snap, m *msgSpec) []string {
 }
 
 func short(s string) string {
-	if len(s) > 120 {
-		return fmt.Sprintf("%s…(%d bytes)…%s", s[:50], len(s), s[len(s)-50:])
+	if len(s) > 400 {
+		return fmt.Sprintf("%s…(%d bytes)…%s", s[:180], len(s), s[len(s)-180:])
 	}
 	return s
 }
@@ -693,6 +722,7 @@ func earlierLimitBelow(earlier []*msgSpec, n int) bool {
 
 type connVerdict struct {
 	anomalies  []anomaly
+	finals     []*h1.Msg
 	rejectAt   int // index of a message whose rejected expectation was answered 417 without Connection: close under ContinueHandler; -1
 	judgedUpTo int // snapshots of messages with index < judgedUpTo are compared with the reference
 	responses  int
@@ -711,11 +741,19 @@ func judgeWire(conf srvConf, cr *connRun, ev map[string]int) connVerdict {
 	methods := make([]string, len(msgs))
 	for j, m := range msgs {
 		methods[j] = "GET"
-		if m.Head {
+		if m.Head && !m.Truncated { // (a truncated HEAD is never recognised as one: its error response has a body)
 			methods[j] = "HEAD"
 		}
 	}
-	all, _ := h1.ParseResponses(cr.written, methods)
+	written := cr.written
+	if cr.state == fasthttp.StateHijacked {
+		if !strings.HasSuffix(string(written), hijackMarker) {
+			add(len(msgs), "hijack-handler-output-missing", "the connection was hijacked but the hijack handler's bytes are not the last thing on the wire")
+		} else {
+			written = written[:len(written)-len(hijackMarker)]
+		}
+	}
+	all, _ := h1.ParseResponses(written, methods)
 	var finals []*h1.Msg
 	unparsable := ""
 	for _, m := range all {
@@ -729,9 +767,24 @@ func judgeWire(conf srvConf, cr *connRun, ev map[string]int) connVerdict {
 	}
 	k := len(finals)
 	v.responses = k
+	v.finals = finals
 	called := map[string]int{}
 	for _, sn := range cr.snaps {
 		called[sn.Tag]++
+	}
+	if cr.state == fasthttp.StateHijacked && unparsable == "" && len(cr.snaps) > 0 {
+		// the request that hijacked (default behaviour: response first) is the last one dispatched
+		hj := -1
+		for j, m := range msgs {
+			if m.Tag == cr.snaps[len(cr.snaps)-1].Tag {
+				hj = j
+			}
+		}
+		if hj >= 0 && msgs[hj].Prog.Special == "hijack" && k <= hj {
+			add(hj, "hijack-response-missing", fmt.Sprintf("message %d (%s) hijacked the connection with the default behaviour, but no response to it was written before the hijack handler ran (%d responses on the wire)", hj, msgs[hj].Tag, k))
+			v.judgedUpTo = hj
+			return v
+		}
 	}
 	// position of snapshots must follow message order
 	end := len(msgs) // first index that must NOT be served
@@ -792,7 +845,19 @@ func judgeWire(conf srvConf, cr *connRun, ev map[string]int) connVerdict {
 	if k > len(msgs) {
 		add(len(msgs), "more-responses-than-requests", fmt.Sprintf("%d final responses for %d messages", k, len(msgs)))
 	}
-	if end == len(msgs) && k < len(msgs) {
+	abortedLater := false // the peer aborted inside a later message of this connection
+	if k < len(msgs) {
+		for _, m := range msgs[k:] {
+			if m.Truncated {
+				abortedLater = true
+			}
+		}
+	}
+	if end == len(msgs) && k < len(msgs) && abortedLater && called[msgs[k].Tag] > 0 {
+		// dispatched, but its (buffered, pipelined) response never reached the wire because the peer went away
+		// inside the next message: response delivery at an abort is C03/C15's subject, not judged here
+		ev["skipped_response_lost_at_peer_abort"]++
+	} else if end == len(msgs) && k < len(msgs) && !msgs[k].Truncated {
 		// connection neither said close nor was hijacked, yet messages remain unanswered
 		what := fmt.Sprintf("message %d (%s %s) was never answered although response %d did not say close", k, msgs[k].Kind, msgs[k].Tag, k-1)
 		if k == 0 {
@@ -830,17 +895,48 @@ func judgeWire(conf srvConf, cr *connRun, ev map[string]int) connVerdict {
 	return v
 }
 
-// freshSnapshot serves msg alone on a brand-new Server of the same configuration.
-func freshSnapshot(conf srvConf, m *msgSpec, frag string) (*snap, string) {
+// freshRun serves msg alone on a brand-new Server of the same configuration.
+func freshRun(conf srvConf, m *msgSpec, frag string) *connRun {
 	w := newWorld(conf)
-	cr := w.runConn(&connSpec{Msgs: []*msgSpec{m}, Frag: frag})
-	if cr.panicked != nil {
-		return nil, fmt.Sprintf("panic on fresh server: %v", cr.panicked)
+	return w.runConn(&connSpec{Msgs: []*msgSpec{m}, Frag: frag})
+}
+
+// renderResponse: what a client can see of one final response (the Date value aside).
+func renderResponse(m *h1.Msg) string {
+	var b strings.Builder
+	fmt.Fprintf(&b, "%s %d %s |", m.Version, m.Status, m.Reason)
+	for _, f := range m.Fields {
+		if strings.EqualFold(f.Name, "Date") {
+			continue
+		}
+		fmt.Fprintf(&b, " %s: %s |", f.Name, f.Value)
 	}
-	if len(cr.snaps) != 1 {
-		return nil, fmt.Sprintf("fresh server called the handler %d times", len(cr.snaps))
+	fmt.Fprintf(&b, " body(%s)=%q", m.BodyKind, short(string(m.Body)))
+	for _, f := range m.Trailers {
+		fmt.Fprintf(&b, " | trailer %s: %s", f.Name, f.Value)
 	}
-	return cr.snaps[0], ""
+	return b.String()
+}
+
+func finalResponses(written []byte, head bool, hijacked bool) ([]*h1.Msg, string) {
+	if hijacked && strings.HasSuffix(string(written), hijackMarker) {
+		written = written[:len(written)-len(hijackMarker)]
+	}
+	method := "GET"
+	if head {
+		method = "HEAD"
+	}
+	all, _ := h1.ParseResponses(written, []string{method})
+	var finals []*h1.Msg
+	for _, m := range all {
+		if m.Fatal != "" {
+			return finals, m.Fatal
+		}
+		if m.Status/100 != 1 {
+			finals = append(finals, m)
+		}
+	}
+	return finals, ""
 }
 
 // rereadsStreamAfterEOF: the handler program of m reads the chunked body stream directly up to EOF
@@ -954,6 +1050,7 @@ func runHistory(r *mon.Run, i int, h *history) {
 			}
 		}
 		// snapshots
+		fresh := map[int]*connRun{}
 		for _, sn := range cr.snaps {
 			ev["snapshots"]++
 			if c, ok := seenPtr[sn.ptr]; ok && c != ci {
@@ -986,7 +1083,18 @@ func runHistory(r *mon.Run, i int, h *history) {
 			if sn.ConnReqNum != uint64(idx+1) {
 				v.anomalies = append(v.anomalies, anomaly{"conn-request-num", fmt.Sprintf("message %d (%s): ConnRequestNum=%d", idx, m.Tag, sn.ConnReqNum), idx})
 			}
-			fs, ferr := freshSnapshot(h.Conf, m, cr.spec.Frag)
+			fr := freshRun(h.Conf, m, cr.spec.Frag)
+			fresh[idx] = fr
+			var fs *snap
+			ferr := ""
+			switch {
+			case fr.panicked != nil:
+				ferr = fmt.Sprintf("panic on fresh server: %v", fr.panicked)
+			case len(fr.snaps) != 1:
+				ferr = fmt.Sprintf("fresh server called the handler %d times", len(fr.snaps))
+			default:
+				fs = fr.snaps[0]
+			}
 			if ferr != "" {
 				ev["skipped_fresh_run_failed"]++
 				r.Inconclusive(fmt.Sprintf("case %d: %s (%s)", i, ferr, m.Tag))
@@ -1002,6 +1110,38 @@ func runHistory(r *mon.Run, i int, h *history) {
 		}
 		for _, sn := range cr.snaps {
 			seenPtr[sn.ptr] = ci
+		}
+		// response differential: every message answered before the connection's end (dispatched or not) gets
+		// the response a brand-new Server gives to the same message
+		for j := 0; j < len(v.finals) && j < len(cr.spec.Msgs) && j < v.judgedUpTo; j++ {
+			m := cr.spec.Msgs[j]
+			if m.Truncated || (!m.Valid && !m.OverLimit && strings.HasPrefix(m.Kind, "invalid:bad-version")) {
+				continue
+			}
+			fr := fresh[j]
+			if fr == nil {
+				fr = freshRun(h.Conf, m, cr.spec.Frag)
+			}
+			if fr.panicked != nil || fr.incon != "" {
+				continue
+			}
+			ff, fatal := finalResponses(fr.written, m.Head, fr.state == fasthttp.StateHijacked)
+			if fatal != "" || len(ff) != 1 {
+				ev["skipped_fresh_response_unusable"]++
+				continue
+			}
+			ev["response_differentials"]++
+			if ci > 0 && j == 0 {
+				ev["first_response_of_later_connection_differentials"]++
+			}
+			if a, b := renderResponse(v.finals[j]), renderResponse(ff[0]); a != b {
+				key := "response-differs-from-fresh-server"
+				const cc = " Connection: close |"
+				if strings.Replace(a, cc, "", 1) == b && a != b {
+					key = "response-says-close-unlike-fresh-server" // the only difference: an added Connection: close
+				}
+				v.anomalies = append(v.anomalies, anomaly{key, fmt.Sprintf("message %d (%s %s) of connection %d (handler calls on this connection so far: %d): answered %s; a fresh server answers %s", j, m.Kind, m.Tag, ci, len(cr.snaps), short(a), short(b)), j})
+			}
 		}
 		// report: one violation per (connection, key); anomalies at or after a ContinueHandler
 		// rejection answered 417-without-close carry that narrow key.
@@ -1058,5 +1198,7 @@ func TestC11(t *testing.T) {
 		r.Require("ctx_reused_from_earlier_connection", n/2)
 		r.Require("expectations_rejected", n/50)
 		r.Require("invalid_rejected", n/50)
+		r.Require("response_differentials", n*2)
+		r.Require("first_response_of_later_connection_differentials", n)
 	}
 }
